@@ -128,7 +128,31 @@ func cmdCheck(args []string) int {
 	var subsetViolations []*Obligation
 	nFuncs := 0
 	var funcNames []string
+	// must-fail corpus only (HVC_ONLY_PKGS=dir1,dir2): a patch confined to some packages can only
+	// change the obligations of functions of those packages (callers elsewhere see contracts, which
+	// the patch does not touch), so the others are left out of that run
+	var onlyPkgs []string
+	if e := os.Getenv("HVC_ONLY_PKGS"); e != "" {
+		onlyPkgs = strings.Split(e, ",")
+	}
+	inOnly := func(pkg string) bool {
+		if len(onlyPkgs) == 0 {
+			return true
+		}
+		for _, d := range onlyPkgs {
+			if d != "" && (strings.HasSuffix(pkg, "/"+d) || pkg == d) {
+				return true
+			}
+		}
+		return false
+	}
 	for _, u := range units {
+		if u.lem != nil && !inOnly(u.lem.Pkg) {
+			continue
+		}
+		if u.lem == nil && u.fc != nil && !inOnly(u.fc.Pkg) {
+			continue
+		}
 		if u.lem != nil {
 			u.root, u.err = v.VerifyLemma(u.lem)
 			if u.err != nil {
@@ -254,11 +278,15 @@ func cmdCheck(args []string) int {
 			report(o, rr)
 			continue
 		}
+		if strings.HasPrefix(o.Solver, "not run") {
+			// must-fail corpus runs only (HVC_FAILFAST): left out once enough obligations had failed
+			continue
+		}
 		u := unitOf[o.Root]
 		var rr ReplayResult
 		if u != nil && u.fn != nil {
 			rr = v.replayObligation(o, u.root.top, u.fn, u.fc, filepath.Join(outDir, "replay"), o.Model)
-			if !rr.Reproduced {
+			if !rr.Reproduced && os.Getenv("HVC_NOSEARCH") == "" {
 				// the direct model did not reproduce (quantified goal, or a havoced loop state):
 				// search executions with few loop iterations for a concrete failing input
 				K := 2
